@@ -96,8 +96,15 @@ def build(kinds, profile, scratch, seed):
                 if "|" in gts[s]:
                     calls[s]["PS"] = "77" if s == "S3" else "61"
         if k == "preHP":
+            # HP-encoded input phasing (GATK style): S1 always, and S3 (often not selected) instead of its PS phasing
             fmt.append("HP")
             calls["S1"]["HP"] = "61-1,61-2"
+            calls["S3"] = {"GT": "0/1", "HP": "77-2,77-1"}
+            gts["S3"] = "0/1"
+            if not any("|" in g for g in gts.values()):
+                fmt.remove("PS")
+                for s in SAMPLES:
+                    calls[s].pop("PS", None)
         rid, qual, filt, info = ".", ".", ".", "."
         nall = 1 + len(alts)
         if profile == 1:
